@@ -10,6 +10,7 @@ Require Import Zrs.lib.RsPrelude Zrs.gen.RefTables Zrs.gen.Generated Zrs.model.B
 Require Import Zrs.proofs.C12_Fse.
 Require Import Zrs.model.BitIO Zrs.model.BitStream Zrs.model.SeqEnc Zrs.model.BlockDec Zrs.proofs.C12_Stream Zrs.proofs.C12_SeqStream Zrs.proofs.C12_Predef.
 Require Import Zrs.model.FseEnc Zrs.model.SeqSection Zrs.proofs.C12_Desc Zrs.proofs.C12_Section.
+Require Import Zrs.model.FseNorm Zrs.proofs.C12_Norm.
 Open Scope Z_scope.
 
 Theorem C12_ll_predefined_eq_ref :
@@ -111,6 +112,21 @@ Theorem C12_sequence_section_roundtrip : forall dl do dm seqs bytes s,
     decode_sequences (Z.of_nat (length seqs)) (Some MODES_ALL_ENCODED) bytes s = ROk (sc Dll Dml Dof, seqs).
 Proof. exact section_bytes_roundtrip. Qed.
 
+(** the compressor's normaliser ([build_table_from_counts] with the zero-bit avoidance the block encoder always asks
+    for): for every histogram of at least two entries whose last entry is positive (the histogram is cut after the
+    largest code that occurs), whatever it returns is a normalised distribution over the same alphabet with an accuracy
+    log in 5..max_log -- so the description round trip above applies to it.  (The model is compared with the real
+    normaliser, accuracy log and every probability, on every histogram of the run; a histogram with a single entry
+    gives [16; 16] at accuracy log 5.) *)
+Theorem C12_normaliser_output_is_normalised : forall counts max_log al probs,
+  5 <= max_log -> Forall (fun c => 0 <= c) counts -> 0 < last counts 0 -> (2 <= length counts)%nat ->
+  norm_counts counts max_log true = ROk (al, probs) ->
+  dist_ok al probs /\ 5 <= al <= max_log /\ length probs = length counts /\ Forall (fun p => 0 <= p) probs.
+Proof. exact norm_counts_normalised. Qed.
+
+Example C12_normaliser_single_symbol : norm_counts [7] 9 true = ROk (5, [16; 16]).
+Proof. vm_compute. reflexivity. Qed.
+
 Theorem C12_normalised_is_decidable : forall acc_log probs, dist_okb acc_log probs = true -> dist_ok acc_log probs.
 Proof. exact dist_okb_ok. Qed.
 
@@ -121,6 +137,7 @@ Example C12_predefined_distributions_are_normalised :
 Proof. vm_compute. repeat split. Qed.
 
 Print Assumptions C12_table_description_roundtrip.
+Print Assumptions C12_normaliser_output_is_normalised.
 Print Assumptions C12_sequence_section_roundtrip.
 Print Assumptions C12_normalised_is_decidable.
 Print Assumptions C12_predefined_sequences_roundtrip.
